@@ -551,7 +551,7 @@ def r07_2(F, R, box):
                     stack.append((ch, inner or x.get("k") in ("for", "loop", "while")))
             for n in H.walk(lp["body"]):
                 if n.get("k") == "mcall" and n["name"] == "insert" and len(n.get("args", [])) == 2:
-                    for kind, cn, pol in H.path_conditions(lp["body"], n):
+                    for kind, cn, pol in H.path_conditions(lp["body"], n, skip_error_exits=True):
                         bad.append("entry stored only under `%s`" % (H.render(cn)[:60] if kind != "arm" else "a match arm"))
         R.inst("R07.2", "every-entry-of-the-jar-is-kept", not bad, sp=rm["sp"], got=bad,
                expect="one output entry per input entry: no filter/skip/.. on the entry keys, no continue/break, unconditional insert",
